@@ -91,3 +91,31 @@ func VP_C06_DepositGrid() {
 	zzvp.Reach("deposit-returned")
 	vpDepositSpec(rx, ry, ps, x, y, ax, ay, pc)
 }
+
+// C06, ranged pools, lopsided reserves: when one reserve is so small against the other that their ratio rounds to zero
+// at 18 decimals (the "single asset pool" branches of DeriveTranslation), the derived translation still puts the pool
+// price (rx + transX) / (ry + transY) inside the configured range. Semi-concrete: price ranges from a grid whose square
+// roots are exact ([0.25, 4], [0.81, 1.21], [0.0001, 10000]); the small reserve in [1, 10^6], the large one symbolic up
+// to the module's amount bound. The normal branch (square roots of symbolic ratios) is outside the claim.
+func VP_C06_RangedLopsidedPoolPriceStaysInRange() {
+	grid := [][2]string{{"0.25", "4"}, {"0.81", "1.21"}, {"0.0001", "10000"}}
+	g := grid[zzvp.Choose(len(grid))]
+	minPrice, maxPrice := sdkmath.LegacyMustNewDecFromStr(g[0]), sdkmath.LegacyMustNewDecFromStr(g[1])
+	small, big := vpAmount(false), vpAmount(false)
+	zzvp.Assume(small.LTE(sdkmath.NewInt(1000000)))
+	var rx, ry sdkmath.Int
+	if zzvp.Choose(2) == 0 {
+		rx, ry = small, big // y-heavy
+	} else {
+		rx, ry = big, small // x-heavy
+	}
+	// the ratio of the small to the large reserve rounds to zero at 18 decimals
+	zzvp.Assume(small.ToLegacyDec().Quo(big.ToLegacyDec()).IsZero())
+	pool := NewRangedPool(rx, ry, sdkmath.NewInt(1000000), minPrice, maxPrice)
+	zzvp.Reach("lopsided-pool-derived")
+	// min * (1 - 1e-12) * yComp <= xComp <= max * (1 + 1e-12) * yComp   (raw 18-decimal integers, exact)
+	x, y, e12 := zzvp.ZD(pool.xComp), zzvp.ZD(pool.yComp), zzvp.Pow10(12)
+	zzvp.Assert(y.IsPositive(), "translated-y-reserve-positive")
+	zzvp.Assert(x.Mul(zzvp.Pow10(18)).Mul(e12).GTE(zzvp.ZD(minPrice).Mul(e12.Sub(zzvp.ZN(1))).Mul(y)), "price-not-below-the-configured-minimum")
+	zzvp.Assert(x.Mul(zzvp.Pow10(18)).Mul(e12).LTE(zzvp.ZD(maxPrice).Mul(e12.Add(zzvp.ZN(1))).Mul(y)), "price-not-above-the-configured-maximum")
+}
